@@ -362,10 +362,16 @@ class Run:
 
     def thread_point(self, fr: Frame, kind: str) -> None:
         actor = fr.actor
-        before = self.quiet_read(fr)
-        others_open = self._others_open(actor)
-        switched = self.sched.point(actor.slot, kind)
+        box: list = []
+
+        def before_park() -> None:
+            # what this actor sees right before it is parked ...
+            box.append(self.quiet_read(fr))
+            box.append(self._others_open(actor))
+
+        switched = self.sched.point(actor.slot, kind, before_park)
         if switched:
+            before, others_open = box  # ... must be what it sees when it resumes
             self.probe('switch')
             if others_open and len(self.stacks[fr.ctx]) > 1:
                 self.probe('switch_with_two_actors_in_blocks')
@@ -1096,7 +1102,9 @@ class Run:
     async def do_join(self, fr: Frame, stmt: list) -> None:
         cid = stmt[1]
         child = self.actors.get(cid)
-        if child is None or child is fr.actor:
+        if child is None or child.parent is not fr.actor:
+            # only an actor's own children can be joined: no wait cycle is possible then (generated
+            # programs obey this by construction; Hypothesis-built and shrunk ones are filtered here)
             self.log(fr, 'skip', {'stmt': 'JOIN'})
             return
         if self.world == 'thread':
